@@ -105,80 +105,78 @@ def min_cost_flow[Node](
     demand: int,
 ) -> Result:
     """Route demand units from source to sink at minimum total cost."""
-    capacity = defaultdict(lambda: defaultdict(int))
-    cost = defaultdict(lambda: defaultdict(lambda: float("inf")))
+    # Arcs are kept individually ([u, v, capacity, cost, flow]) so that parallel and anti-parallel arcs keep their own
+    # cost: the residual graph has a forward move (remaining capacity, +cost) and a cancelling move (current flow, -cost)
+    # per arc.
+    arcs: list[list] = []
     nodes = set()
 
     for u in graph:
         nodes.add(u)
         for v, cap, c in graph[u]:
             nodes.add(v)
-            capacity[u][v] += cap
-            cost[u][v] = min(cost[u][v], c)
-            if cost[v][u] == float("inf"):
-                cost[v][u] = -c
+            arcs.append([u, v, cap, c, 0])
 
-    flow = defaultdict(lambda: defaultdict(int))
     total_cost = 0
     total_flow = 0
     iterations = 0
 
     def bellman_ford():
         dist = {n: float("inf") for n in nodes}
-        parent = {n: None for n in nodes}
+        parent: dict = {n: None for n in nodes}  # (arc index, forward?) used to reach the node
         dist[source] = 0
 
         for _ in range(len(nodes) - 1):
             updated = False
-            for u in nodes:
-                if dist[u] == float("inf"):
-                    continue
-                for v in nodes:
-                    residual = capacity[u][v] - flow[u][v] + flow[v][u]
-                    if residual > 0 and dist[u] + cost[u][v] < dist[v]:
-                        dist[v] = dist[u] + cost[u][v]
-                        parent[v] = u
-                        updated = True
+            for k, (u, v, cap, c, f) in enumerate(arcs):
+                if f < cap and dist[u] + c < dist[v]:
+                    dist[v] = dist[u] + c
+                    parent[v] = (k, True)
+                    updated = True
+                if f > 0 and dist[v] - c < dist[u]:
+                    dist[u] = dist[v] - c
+                    parent[u] = (k, False)
+                    updated = True
             if not updated:
                 break
 
-        if dist[sink] == float("inf"):
-            return None, float("inf")
+        if sink not in dist or dist[sink] == float("inf"):
+            return None
 
         path = []
         node = sink
-        while node is not None:
-            path.append(node)
-            node = parent[node]
+        while node != source:
+            k, forward = parent[node]
+            path.append((k, forward))
+            node = arcs[k][0] if forward else arcs[k][1]
         path.reverse()
-
-        return path, dist[sink]
+        return path
 
     while total_flow < demand:
         iterations += 1
-        path, path_cost = bellman_ford()
+        path = bellman_ford() if source in nodes else None
         if path is None:
             return Result({}, float("inf"), iterations, iterations, Status.INFEASIBLE)
 
         path_flow = demand - total_flow
-        for u, v in zip(path, path[1:]):
-            residual = capacity[u][v] - flow[u][v] + flow[v][u]
-            path_flow = min(path_flow, residual)
+        for k, forward in path:
+            _, _, cap, _, f = arcs[k]
+            path_flow = min(path_flow, cap - f if forward else f)
 
-        for u, v in zip(path, path[1:]):
-            if flow[v][u] > 0:
-                reduce = min(path_flow, flow[v][u])
-                flow[v][u] -= reduce
-                remaining = path_flow - reduce
-                flow[u][v] += remaining
-                total_cost += cost[u][v] * remaining - cost[v][u] * reduce
+        for k, forward in path:
+            if forward:
+                arcs[k][4] += path_flow
+                total_cost += arcs[k][3] * path_flow
             else:
-                flow[u][v] += path_flow
-                total_cost += cost[u][v] * path_flow
+                arcs[k][4] -= path_flow
+                total_cost -= arcs[k][3] * path_flow
 
         total_flow += path_flow
 
-    flows = {(u, v): flow[u][v] for u in flow for v in flow[u] if flow[u][v] > 0}
+    flows: dict = {}
+    for u, v, _, _, f in arcs:
+        if f > 0:
+            flows[(u, v)] = flows.get((u, v), 0) + f
     return Result(flows, total_cost, iterations, iterations)
 
 
